@@ -67,25 +67,27 @@ INFO = {
              "capability set of bounded pools; every case runs through Engine.Eval over an in-memory storage under several "
              "capability configurations together with seeded random record sets and pipelines, and TLC validates each recorded run: "
              "bag of entries = LogResult (each matching record once, none else, original timestamp and line, final labels), the "
-             "storage's own answer being checked as an environment step. ip(\"...\") line and label filters on IPv4 (MC_Ip: patterns x "
-             "addresses around their edges, prefix containment against the network..broadcast interval, the line scanner) and the regexp "
-             "stage are part of the stage semantics.",
-        note="Stage semantics are those of Pipeline.tla/Num.tla/Regex.tla/Ip.tla (sub-grammars for numbers, durations, byte sizes, regexes with anchors and groups, IPv4); values outside them (IPv6, lines with ':' or a-f under ip()) make a scenario open (not compared).",
+             "storage's own answer being checked as an environment step. ip(\"...\") line and label filters on IPv4 and IPv6 (MC_Ip: patterns x "
+             "addresses around their edges in every spelling, prefix containment against the network..broadcast interval, the line "
+             "scanner, families kept apart), the regexp stage, and the labels a record starts with (own / scope / resource attributes, "
+             "ids, severity, typed values) are part of the stage semantics.",
+        note="Stage semantics are those of Pipeline.tla/Num.tla/Regex.tla/Ip.tla (sub-grammars for numbers, durations, byte sizes, regexes with anchors and groups, IPv4 / IPv6); values outside them (an address with a zone or an IPv4 tail under ip()) make a scenario open (not compared).",
         ref="6/C01"),
     "C08": dict(
         text="TLC checks the limit guard and groupEntries (stream map keyed by the canonical sorted+quoted label rendering) on every "
              "small record sequence with colliding label renderings, timestamp ties and limits around the number of matches: key "
              "injective, streams partition entries by final label set, time order per stream, first min(L,N) records; the cases and "
              "random larger ones run through Engine.Eval and TLC validates entries against LogResult plus the partition and limit "
-             "rules on the recorded result.",
+             "rules on the recorded result. Second stage: the limit through the plugin's own command over 4-8 fake containers with "
+             "interleaved frames; TLC recognises the printed bytes as the first `limit` entries of System!Printed.",
         note="Trusts the in-memory storage fake (itself checked as an environment step) and TLC; tie-breaking at the cut and stream order left open.",
         ref="6/C08"),
     "C19": dict(
         text="TLC proves on bounded pools that the specification's own stage semantics is a Boolean algebra of filters (sub-multiset, "
              "negation splits, commutation, idempotence, and = intersection, or = union, |= \"\" neutral) and then evaluates the same "
              "relations on the result sets OBSERVED from Engine.Eval for every exported family and for random families with arbitrary "
-             "bytes and arbitrary valid regular expressions - relations between several executions of the real code, judged by TLC "
-             "(Trace_Algebra).",
+             "bytes and arbitrary valid regular expressions, over the in-memory storage and over the Docker storage - relations between "
+             "several executions of the real code, judged by TLC (Trace_Algebra).",
         note="Relations are checked on observed results only (no semantic model of the regex needed); distinct timestamps per scenario.",
         ref="6/C19"),
     "C09": dict(
